@@ -29,7 +29,9 @@ CONSTANTS MK,          \* maxKeys per node (pageSize/16 - 1)
 INSTANCE TreeOps
 
 AbsMax == NKeys        \* id of the key 2^64-2 (absoluteMax), also the tree's right-most routing key
-MaxPid == MaxOps + 6
+\* bound on page ids in the model: every page holds at least one key, a Set allocates at most
+\* three pages
+MaxPid == IF MaxOps + 6 < 2 * NKeys + 4 THEN MaxOps + 6 ELSE 2 * NKeys + 4
 
 VARIABLES pages,       \* [pid -> [leaf, keys, vals, pid]]   (pid field 0 = page never initialised)
           link,        \* [pid -> word 0 of a freed page = next free page]
